@@ -41,6 +41,31 @@ def repo_head():
         return "?"
 
 
+class ImplementationTimeout(Exception):
+    pass
+
+
+class time_limit:
+    """Bounds a call into the implementation that the model says terminates (SIGALRM, main thread)."""
+
+    def __init__(self, seconds):
+        self.seconds = seconds
+
+    def __enter__(self):
+        import signal
+
+        def handler(signum, frame):
+            raise ImplementationTimeout("no result after %s s" % self.seconds)
+        self.old = signal.signal(signal.SIGALRM, handler)
+        signal.setitimer(signal.ITIMER_REAL, self.seconds)
+
+    def __exit__(self, *a):
+        import signal
+        signal.setitimer(signal.ITIMER_REAL, 0)
+        signal.signal(signal.SIGALRM, self.old)
+        return False
+
+
 # ---------------------------------------------------------------- rationals
 def fr(x):
     """[num, den] from TLC -> Fraction (den 0 encodes inf / NaN and is returned as None)."""
